@@ -116,10 +116,12 @@ impl SkimItem for PItem {
                         }
                     }
                     'F' => {
+                        // the exit status of a command that FAILS BY ITSELF: small, or in the range shells use for "died of a signal"
+                        let code = [3, 130, 255, 137][(s.lines + s.delay as usize) % 4];
                         if s.lines == 0 {
-                            "exit 3".to_string()
+                            format!("exit {}", code)
                         } else {
-                            format!("(echo {}{}) 1>&2; exit 3", tag, filler(s.lines))
+                            format!("(echo {}{}) 1>&2; exit {}", tag, filler(s.lines), code)
                         }
                     }
                     _ => "kill -KILL $$".to_string(),
